@@ -507,9 +507,11 @@ def extract_helper(path, fn_name):
             if isinstance(v, ast.Call) and isinstance(v.func, ast.Name) and imported.get(v.func.id) == "refine_cross_section" \
                     and len(v.args) == 1 and not v.keywords and is_poly(v.args[0]):
                 returned = True
+                h.returns_through = "refine_cross_section"
                 continue
             if is_poly(v):
                 returned = True
+                h.returns_through = ""
                 continue
             raise Untranslatable(f"helper {fn_name}: return {ast.unparse(v)[:60] if v else None}")
         h.ops += step(st)
@@ -557,3 +559,166 @@ def lean_call(c):
     return ("{ host := " + pyexpr.lean_str(c.host) + ", hook := " + pyexpr.lean_str(c.hook) + ", fn := " + pyexpr.lean_str(c.fn)
             + ", helper := " + pyexpr.lean_str(c.helper) + ",\n      args := ["
             + ", ".join(f"({pyexpr.lean_str(v)}, {pyexpr.lean_expr(e)})" for v, e in c.args) + "] }")
+
+
+# ----------------------------------------------------------------------------------------------------------------------
+# (4) where the placed vertex list comes from, and what `refine_cross_section` does to the answer of the helpers
+# ----------------------------------------------------------------------------------------------------------------------
+# `contour_lines` places `self.roll.contour_line` (pinned by `extract_contour_lines`).  Read here:
+#   * the property `Roll.contour_line` (roll/roll.py): optional docstring, `if self._contour_line: return self._contour_line`,
+#     `self._contour_line = LineString(self.contour_points)`, `return self._contour_line`  ->  `.lineOf (.hook "contour_points")`
+#   * every hook implementation registered on `Roll.contour_points` (roll/hookimpls.py): `return self.groove.contour_points`
+#     -> `.grooveContour`; anything else (guards, other attributes of the roll such as its width, arithmetic) -> `.opaque`
+#   * `refine_cross_section` (profile/profile.py): `if Config.PROFILE_CONTOUR_REFINEMENT < N: return <param>` -> `.offBelow N`,
+#     `return <param>.segmentize(<length>)` -> `.segmentize` (shapely: inserts vertices on the edges, the point set stays),
+#     any other statement -> `.opaque`
+# Output: lean/PyrollModel/Gen/C09Roll.lean (self-contained: the little term language is part of the generated text).
+
+ROLL_LEAN_HEADER = '''/- GENERATED by driver/translate/c09_contours.py from /repo's working tree on every run - do not edit. -/
+namespace Gen.C09Roll
+
+/-- where a vertex list comes from -/
+inductive Src where
+  | grooveContour                 -- `self.groove.contour_points`
+  | hook (name : String)          -- `self.<name>`: a hook of the roll (explicit value, else its implementations)
+  | lineOf (s : Src)              -- `LineString(<s>)`: same vertices
+  | opaque (what : String)        -- anything else
+  deriving DecidableEq, Repr
+
+/-- a statement of `refine_cross_section` -/
+inductive RefineStep where
+  | offBelow (n : Nat)            -- `if Config.PROFILE_CONTOUR_REFINEMENT < n: return cross_section`
+  | segmentize                    -- `return cross_section.segmentize(<length>)`: vertices inserted on edges
+  | opaque (what : String)        -- anything else
+  deriving DecidableEq, Repr
+
+/-- the point set of the polygon is the same after the step (shapely's `segmentize` only subdivides edges) -/
+def RefineStep.keepsPointSet : RefineStep → Bool
+  | .offBelow _ => true
+  | .segmentize => true
+  | .opaque _ => false
+
+/-- the step that answers under configuration value `v` is reached (`none`: no statement returns) -/
+def answering (v : Nat) : List RefineStep → Option RefineStep
+  | [] => none
+  | .offBelow n :: rest => if v < n then some (.offBelow n) else answering v rest
+  | .segmentize :: _ => some .segmentize
+  | .opaque w :: _ => some (.opaque w)
+
+/-- the sources a roll WITHOUT an explicitly given value of the hook can answer with: one per implementation, in
+    resolution order (first implementation that answers wins; these have no guards) -/
+def resolve (impls : List (String × List Src)) : Nat → Src → List Src
+  | 0, s => [s]
+  | fuel + 1, .hook n => ((impls.filter (·.1 == n)).flatMap (·.2)).flatMap (resolve impls fuel)
+  | fuel + 1, .lineOf s => (resolve impls fuel s).map .lineOf
+  | _ + 1, s => [s]
+
+'''
+
+
+def _roll_src_of_impl(impl):
+    alts = [(g, e, k) for (g, e, k) in (impl.alts or [])]
+    if impl.gap is None and not impl.wrapper and alts == [(("tt",), ("var", "groove.contour_points"), "expr")]:
+        return ("grooveContour",)
+    return ("opaque", f"{impl.fn}: " + (impl.gap or "reads more than the groove's contour points"))
+
+
+def extract_roll_source(core_dir):
+    """-> {"contour_line": src, "contour_line_lineno": n, "impls": [(fn, lineno, src)]}"""
+    from . import pyexpr
+    out = {"contour_line": ("opaque", "Roll.contour_line not found"), "contour_line_lineno": 0, "impls": []}
+    path = os.path.join(core_dir, "roll", "roll.py")
+    tree = ast.parse(open(path).read())
+    cls = next((n for n in tree.body if isinstance(n, ast.ClassDef) and n.name == "Roll"), None)
+    fn = next((n for n in (cls.body if cls else []) if isinstance(n, ast.FunctionDef) and n.name == "contour_line"), None)
+    if fn is not None:
+        out["contour_line_lineno"] = fn.lineno
+        body = list(fn.body)
+        if body and isinstance(body[0], ast.Expr) and isinstance(body[0].value, ast.Constant) and isinstance(body[0].value.value, str):
+            body = body[1:]
+        want = ["if self._contour_line:\n    return self._contour_line",
+                "self._contour_line = LineString(self.contour_points)",
+                "return self._contour_line"]
+        got = [ast.unparse(b) for b in body]
+        is_prop = any(isinstance(d, ast.Name) and d.id == "property" for d in fn.decorator_list)
+        if is_prop and got == want and _shapely_names(tree).get("LineString") == "LineString":
+            out["contour_line"] = ("lineOf", ("hook", "contour_points"))
+        else:
+            out["contour_line"] = ("opaque", "Roll.contour_line: " + " ; ".join(got)[:120])
+    hpath = os.path.join(core_dir, "roll", "hookimpls.py")
+    for impl in pyexpr.extract_hookimpls(hpath, module_name="roll/hookimpls.py"):
+        if impl.host == "Roll" and impl.hook == "contour_points":
+            out["impls"].append((impl.fn, impl.lineno, _roll_src_of_impl(impl)))
+    return out
+
+
+def extract_refine(core_dir):
+    """-> (lineno, [step]) of `refine_cross_section`"""
+    path = os.path.join(core_dir, "profile", "profile.py")
+    tree = ast.parse(open(path).read())
+    fn = next((n for n in tree.body if isinstance(n, ast.FunctionDef) and n.name == "refine_cross_section"), None)
+    if fn is None:
+        return 0, [("opaque", "refine_cross_section not found")]
+    a = fn.args
+    if fn.decorator_list or a.vararg or a.kwarg or a.kwonlyargs or a.posonlyargs or len(a.args) != 1:
+        return fn.lineno, [("opaque", "refine_cross_section: signature")]
+    p = a.args[0].arg
+    steps = []
+    body = list(fn.body)
+    if body and isinstance(body[0], ast.Expr) and isinstance(body[0].value, ast.Constant) and isinstance(body[0].value.value, str):
+        body = body[1:]
+    for st in body:
+        if isinstance(st, ast.If) and not st.orelse and len(st.body) == 1 and isinstance(st.body[0], ast.Return) \
+                and isinstance(st.body[0].value, ast.Name) and st.body[0].value.id == p \
+                and isinstance(st.test, ast.Compare) and len(st.test.ops) == 1 and isinstance(st.test.ops[0], ast.Lt) \
+                and ast.unparse(st.test.left) == "Config.PROFILE_CONTOUR_REFINEMENT" \
+                and isinstance(st.test.comparators[0], ast.Constant) and type(st.test.comparators[0].value) is int \
+                and st.test.comparators[0].value >= 0:
+            steps.append(("offBelow", st.test.comparators[0].value))
+        elif isinstance(st, ast.Return) and isinstance(st.value, ast.Call) and isinstance(st.value.func, ast.Attribute) \
+                and st.value.func.attr == "segmentize" and isinstance(st.value.func.value, ast.Name) \
+                and st.value.func.value.id == p and len(st.value.args) + len(st.value.keywords) == 1:
+            steps.append(("segmentize",))
+        else:
+            steps.append(("opaque", ast.unparse(st).replace("\n", " ; ")[:120]))
+    return fn.lineno, steps
+
+
+def _lean_src(s):
+    from .pyexpr import lean_str
+    if s[0] == "grooveContour":
+        return ".grooveContour"
+    if s[0] == "hook":
+        return f"(.hook {lean_str(s[1])})"
+    if s[0] == "lineOf":
+        return f"(.lineOf {_lean_src(s[1])})"
+    return f"(.opaque {lean_str(s[1])})"
+
+
+def _lean_step(s):
+    from .pyexpr import lean_str
+    if s[0] == "offBelow":
+        return f"(.offBelow {s[1]})"
+    if s[0] == "segmentize":
+        return ".segmentize"
+    return f"(.opaque {lean_str(s[1])})"
+
+
+def lean_roll_module(roll, refine, helper_returns):
+    """the text of lean/PyrollModel/Gen/C09Roll.lean; `helper_returns`: [(helper fn, what its return statement wraps the polygon in)]"""
+    from .pyexpr import lean_str
+    lineno, steps = refine
+    L = [ROLL_LEAN_HEADER]
+    L.append(f"/-- pyroll/core/roll/roll.py:{roll['contour_line_lineno']} property `Roll.contour_line` (what `contour_lines` places) -/")
+    L.append(f"def roll_contour_line : Src := {_lean_src(roll['contour_line'])}")
+    L.append("/-- pyroll/core/roll/hookimpls.py: the implementations registered on `Roll.contour_points`: " +
+             ", ".join(f"`{fn}` (line {ln})" for fn, ln, _ in roll["impls"]) + " -/")
+    L.append("def roll_hook_impls : List (String × List Src) :=\n    [(\"contour_points\", [" +
+             ", ".join(_lean_src(s) for _, _, s in roll["impls"]) + "])]")
+    L.append(f"/-- pyroll/core/profile/profile.py:{lineno} `refine_cross_section`, statement by statement -/")
+    L.append("def refine_steps : List RefineStep := [" + ", ".join(_lean_step(s) for s in steps) + "]")
+    L.append("/-- what the return statement of each cross-section helper of the passes wraps the clipped polygon in -/")
+    L.append("def helper_returns : List (String × String) := [" +
+             ", ".join(f"({lean_str(h)}, {lean_str(w)})" for h, w in helper_returns) + "]")
+    L.append("\nend Gen.C09Roll")
+    return "\n".join(L) + "\n"
